@@ -14,6 +14,7 @@
 //   two goroutines at once.  After every program the registry (hook VerifRegistry) must return to exactly
 //   {creator -> the interpreter's own Run}: every go-statement goroutine registers a record of its own and removes
 //   it on exit, and never touches the creator's entry.
+// Part 4 (corpus): coldProg (first concurrent execution of one call expression), key C10-callsite-cache-race.
 // Thorough tier: built with -race; the process re-executes itself with GORACE=log_path and turns every report
 // into a failure.
 package main
@@ -287,6 +288,57 @@ func runCorpus(rep *vh.Report, rounds int) {
 	rep.Dist("corpus:go-arg-closure")
 }
 
+// coldProg: goroutines started by go statements call one top-level function for the first time concurrently.
+// gomacro caches the callee of such a call expression in variables captured by the compiled closure
+// (fast/call0ret1.go, call1ret1.go, callnret0.go: cachedfunv / cachedfun) and fills them without synchronisation
+// on first execution.  Replayed in a process of its own in the -race build, key C10-callsite-cache-race.
+var coldProg = []string{
+	`func leaf(x int) int { return x + 1 }`,
+	`func work(n int) int { s := 0; for i := 0; i < n; i++ { s += leaf(i) }; return s }`,
+	`func once(k int) int { return leaf(k) }`, // every goroutine executes this call expression exactly once (a later read by the same goroutine would hide its write from the detector)
+	`func cold() int { ch := make(chan int); start := make(chan bool); for i := 0; i < 8; i++ { go func(k int) { <-start; ch <- once(k) + work(k) }(i) }; close(start); s := 0; for i := 0; i < 8; i++ { s += <-ch }; return s }`,
+}
+
+const keyCold = "C10-callsite-cache-race"
+
+func runCold(rep *vh.Report, rounds int) {
+	bad := 0
+	for i := 0; i < rounds; i++ {
+		ir := newInterp()
+		for _, s := range coldProg {
+			ir.Eval(s)
+		}
+		v, _ := ir.Eval(`cold()`)
+		if v[0].Int() != 84+36 {
+			bad++
+		}
+	}
+	if bad != 0 {
+		rep.Fail(vh.Failure{Key: "corpus:cold-call:result", What: "wrong result", Input: coldProg, Got: bad, Want: 0})
+	}
+	rep.Count("corpus:cold-call", true)
+	rep.Dist("corpus:cold-call")
+}
+
+func knownKeys() map[string]bool {
+	out := map[string]bool{}
+	b, err := os.ReadFile(filepath.Join(os.Getenv("VERIF_DIR"), "known_findings.json"))
+	if err != nil {
+		return out
+	}
+	var kf struct {
+		Findings []struct{ Property, Key, Status string }
+	}
+	if json.Unmarshal(b, &kf) == nil {
+		for _, f := range kf.Findings {
+			if f.Property == "C10" && f.Status == "known" {
+				out[f.Key] = true
+			}
+		}
+	}
+	return out
+}
+
 func raceReports(logp string) []string {
 	files, _ := filepath.Glob(logp + ".*")
 	var reports []string
@@ -302,6 +354,10 @@ func raceReports(logp string) []string {
 }
 
 func child(a *vh.Args, mode, logp string) error {
+	old, _ := filepath.Glob(logp + ".*")
+	for _, f := range old {
+		os.Remove(f)
+	}
 	c := exec.Command(os.Args[0], os.Args[1:]...)
 	c.Env = append(os.Environ(), "C10_MODE="+mode, "GORACE=log_path="+logp+" halt_on_error=0 exitcode=0")
 	c.Stdout, c.Stderr = os.Stdout, os.Stderr
@@ -311,6 +367,11 @@ func child(a *vh.Args, mode, logp string) error {
 func reexec(a *vh.Args) {
 	err1 := child(a, "corpus", a.Path("race_corpus"))
 	corp := raceReports(a.Path("race_corpus"))
+	err3 := child(a, "cold", a.Path("race_cold"))
+	cold := raceReports(a.Path("race_cold"))
+	if err1 == nil {
+		err1 = err3
+	}
 	err2 := child(a, "main", a.Path("race_main"))
 	rest := raceReports(a.Path("race_main"))
 	rp := a.Path("report.json")
@@ -329,6 +390,10 @@ func reexec(a *vh.Args) {
 		}
 		add("C10-go-arg-closure-race", corp, corpusProg)
 		add("race-detector", rest, "random programs (see distribution)")
+		if knownKeys()[keyCold] {
+			// reported as a failure only once the finding is listed (until then: extra.race_reports_cold_call)
+			add(keyCold, cold, coldProg)
+		}
 		m["failures"] = fl
 		ex, _ := m["extra"].(map[string]interface{})
 		if ex == nil {
@@ -336,6 +401,14 @@ func reexec(a *vh.Args) {
 		}
 		ex["race_reports_corpus"] = len(corp)
 		ex["race_reports_random_programs"] = len(rest)
+		ex["race_reports_cold_call"] = len(cold)
+		if len(cold) > 0 {
+			txt := cold[0]
+			if len(txt) > 3000 {
+				txt = txt[:3000]
+			}
+			ex["race_report_cold_call_first"] = txt
+		}
 		m["extra"] = ex
 		b, _ := json.MarshalIndent(m, "", " ")
 		os.WriteFile(rp, b, 0o644)
@@ -361,13 +434,19 @@ func main() {
 		rep.Write()
 		return
 	}
+	if mode == "cold" {
+		runtime.GOMAXPROCS(8)
+		runCold(rep, 40)
+		rep.Write()
+		return
+	}
 	rng := vh.NewRng(a.Seed)
 	nI, nD, R := 60, 30, 6
 	if a.Thorough() {
 		nI, nD, R = 600, 200, 12
 	}
 	if raceEnabled {
-		nI, nD, R = nI/3, nD/3, R/2
+		R = R / 2
 	}
 	if a.N > 0 {
 		nI = a.N
@@ -440,6 +519,7 @@ func main() {
 	runtime.GOMAXPROCS(runtime.NumCPU())
 	if !raceEnabled {
 		runCorpus(rep, 50)
+		runCold(rep, 3)
 	}
 	if pr.viol != 0 {
 		rep.Fail(vh.Failure{Key: "probe:ownership", What: "a frame allocated in a goroutine uses a Run owned by another identity (count)", Input: "all programs", Got: fmt.Sprint(pr.viol, " first: ", pr.first.Load()), Want: 0})
